@@ -159,7 +159,7 @@ impl Out {
 /// Progress marker read by the python supervisor: fixed-size slots "<id>\t<description>" (one per
 /// worker thread); the supervisor kills the process when the whole file stops changing.
 pub struct Progress {
-    f: Option<File>,
+    pub f: Option<File>,
 }
 pub const SLOT: usize = 1600;
 impl Progress {
